@@ -266,7 +266,25 @@ func (self *Interpreter) infixHelper(lhs ast.AnalyzedExpression, rhs ast.Analyze
 		lhsInt := (*lhsVal).(value.ValueInt)
 		rhsInt := (*rhsVal).(value.ValueInt)
 
-		// TODO: add checked operations + runtime crashes
+		// These operations have no value: raise a runtime error (like the VM does) instead of crashing the host.
+		switch operator {
+		case pAst.DivideInfixOperator, pAst.ModuloInfixOperator:
+			if rhsInt.Inner == 0 {
+				return nil, nil, value.NewRuntimeErr(
+					"Division by zero error: this is operation is illegal",
+					value.ValueErrorKind,
+					lhs.Span().Start.Until(rhs.Span().End, lhs.Span().Filename),
+				)
+			}
+		case pAst.ShiftLeftInfixOperator, pAst.ShiftRightInfixOperator:
+			if rhsInt.Inner < 0 {
+				return nil, nil, value.NewRuntimeErr(
+					"Negative shift count error: this is operation is illegal",
+					value.ValueErrorKind,
+					lhs.Span().Start.Until(rhs.Span().End, lhs.Span().Filename),
+				)
+			}
+		}
 
 		switch operator {
 		case pAst.PlusInfixOperator:
@@ -318,7 +336,13 @@ func (self *Interpreter) infixHelper(lhs ast.AnalyzedExpression, rhs ast.Analyze
 		lhsFloat := (*lhsVal).(value.ValueFloat)
 		rhsFloat := (*rhsVal).(value.ValueFloat)
 
-		// TODO: add checked operations + runtime crashes
+		if operator == pAst.DivideInfixOperator && rhsFloat.Inner == 0.0 {
+			return nil, nil, value.NewRuntimeErr(
+				"Division by zero error: this is operation is illegal",
+				value.ValueErrorKind,
+				lhs.Span().Start.Until(rhs.Span().End, lhs.Span().Filename),
+			)
+		}
 
 		switch operator {
 		case pAst.PlusInfixOperator:
